@@ -12,7 +12,8 @@ int64_t interesting_int(Rng &r) {
             int k = (int)r.below(19); int64_t p = 1; for (int i = 0; i < k; i++) p *= 10;
             int64_t v = p + (int64_t)r.below(3) - 1; return r.chance(1, 2) ? v : -v;
         }
-        case 0: return edges[r.below(sizeof edges / sizeof edges[0])];
+        case 0: if (r.chance(1, 3)) return (int64_t)r.below(48);      // small values: offsets, lengths and depths of small documents
+                return edges[r.below(sizeof edges / sizeof edges[0])];
         case 1: { int64_t e = edges[r.below(sizeof edges / sizeof edges[0])]; int64_t d = (int64_t)r.below(5) - 2;
                   if ((d > 0 && e > INT64_MAX - d) || (d < 0 && e < INT64_MIN - d)) return e;
                   return e + d; }
@@ -103,12 +104,19 @@ static void gen_container_body(Rng &r, const GenKnobs &k, Node &n, int &budget, 
             if (budget <= 0) break;
             Node c; c.name = nm; budget--;
             gen_value(r, k, c, budget, od, ad);
+            if (!n.kids.empty() && !n.kids.back().is_container() && r.chance(1, 8)) { Bytes keep = c.name; c = n.kids.back(); c.name = keep; if (r.chance(1, 2)) { c.d ^= 0x8000000000000000ULL; if (c.i != INT64_MIN) c.i = -c.i; } }
+            else if (c.t == V_STR && !names.empty() && r.chance(1, 6)) c.s = names[r.below(names.size())];      // a string value equal to a field name
             n.kids.push_back(std::move(c));
         }
     } else {
         for (int i = 0; i < want && budget > 0; i++) {
             Node c; budget--;
             gen_value(r, k, c, budget, od, ad);
+            if (i > 0 && !n.kids.back().is_container() && r.chance(1, 5)) {
+                // neighbours that are equal, or equal "up to something": same value, negated, off by one, +0.0 / -0.0
+                c = n.kids.back();
+                switch (r.below(4)) { case 0: break; case 1: c.d ^= 0x8000000000000000ULL; if (c.i != INT64_MIN) c.i = -c.i; c.b = !c.b; break; case 2: if (c.i < INT64_MAX) c.i++; c.d++; if (!c.s.empty()) c.s.back() ^= 1; break; default: if (!c.s.empty()) c.s.pop_back(); else c.s.push_back(0); c.d = 0x8000000000000000ULL; break; }
+            }
             n.kids.push_back(std::move(c));
         }
     }
